@@ -36,6 +36,9 @@ pub struct Basis {
     pub gs_norms: Vec<f64>,
     pub row_norm_fg: f64,
     pub row_norm_cfg: f64,
+    /// sum of squared eigenvalues of the (normalised) Gram operator of each row
+    /// class divided by n^2: the variance factor of the pooled second moment
+    pub row_pool_var: [f64; 2],
 }
 
 fn tofloat(v: &[i64]) -> Vec<f64> {
@@ -73,10 +76,16 @@ impl Basis {
         let mut gs_norms = Vec::new();
         fft::leaf_norms(&tree, &mut gs_norms);
         let sq = |v: &[i64]| v.iter().map(|x| (x * x) as f64).sum::<f64>();
+        // pooled statistic of a row class = s^T A s / (n sigma^2) with A = sum of the n unit-row projectors;
+        // its eigenvalues are lambda_j = (|a_j|^2 + |b_j|^2) / ||row||^2 over the n FFT points, so for a
+        // spherical Gaussian its variance per signature is 2 * sum(lambda_j^2) / n^2
+        let pool_var = |a: &[C], b: &[C], norm2: f64| (0..n).map(|i| ((a[i].norm2() + b[i].norm2()) / norm2).powi(2)).sum::<f64>() * 2.0 / (n * n) as f64;
+        let row_pool_var = [pool_var(&g_hat, &f_hat, sq(&k.f) + sq(&k.g)), pool_var(&cg_hat, &cf_hat, sq(&k.cf) + sq(&cg))];
         Ok(Basis {
             n,
             row_norm_fg: (sq(&k.f) + sq(&k.g)).sqrt(),
             row_norm_cfg: (sq(&k.cf) + sq(&cg)).sqrt(),
+            row_pool_var,
             f: k.f,
             g: k.g,
             cf: k.cf,
@@ -275,6 +284,8 @@ fn run_chunk<V: Variant>(seed: u64, run: u64, key_index: usize, chunk: u64, pool
         for g in &basis.gs_norms {
             b.extend_from_slice(&g.to_le_bytes());
         }
+        b.extend_from_slice(&basis.row_pool_var[0].to_le_bytes());
+        b.extend_from_slice(&basis.row_pool_var[1].to_le_bytes());
         st.blobs.push(((1 << 48) | ((n as u64) << 32) | key_index as u64, b));
     }
     out.stats = st;
@@ -387,22 +398,26 @@ fn evaluate(rep: &mut Report) {
         let worst_ratio = ratio.iter().cloned().fold(0.0f64, |x, y| x.max((y - 1.0).abs()));
         // pooled ratios: rows of (g,-f), rows of (G,-F), GS directions in 4 bins by GS norm
         let pool = |idx: &[usize]| idx.iter().map(|&d| ratio[d]).sum::<f64>() / idx.len() as f64;
-        let mut pooled: Vec<(String, f64)> = vec![
-            ("rows (g,-f)".into(), pool(&(0..n).collect::<Vec<_>>())),
-            ("rows (G,-F)".into(), pool(&(n..2 * n).collect::<Vec<_>>())),
+        // (label, pooled ratio, tolerance): 0.02, widened to 7 standard deviations where the
+        // directions of a class are so correlated that the pooled statistic is noisier than that
+        let row_sd = |k: usize| gsn.get(tag).filter(|g| g.len() == 2 * n + 2).map(|g| (g[2 * n + k] / m).sqrt()).unwrap_or(0.0);
+        let mut pooled: Vec<(String, f64, f64)> = vec![
+            ("rows (g,-f)".into(), pool(&(0..n).collect::<Vec<_>>()), (7.0 * row_sd(0)).max(0.02)),
+            ("rows (G,-F)".into(), pool(&(n..2 * n).collect::<Vec<_>>()), (7.0 * row_sd(1)).max(0.02)),
         ];
         if let Some(g) = gsn.get(tag) {
+            let g = &g[..2 * n];
             let mut order: Vec<usize> = (0..2 * n).collect();
             order.sort_by(|&x, &y| g[x].partial_cmp(&g[y]).unwrap());
             for b in 0..4 {
                 let idx: Vec<usize> = order[b * n / 2..(b + 1) * n / 2].iter().map(|&i| 2 * n + i).collect();
-                pooled.push((format!("GS directions, norm quartile {}", b + 1), pool(&idx)));
+                pooled.push((format!("GS directions, norm quartile {}", b + 1), pool(&idx), 0.02));
             }
         }
         // chi-square-like dispersion of the direction means (detects a systematic mean shift)
         let mean_disp = z_mean[2 * n..].iter().map(|z| z * z).sum::<f64>() / (2 * n) as f64;
         table.push(json!({"variant": n, "key": key, "signatures": a.m, "mean_norm_ratio": (norm_ratio * 1e5).round() / 1e5,
-            "pooled": pooled.iter().map(|(l, v)| json!([l, (v * 1e4).round() / 1e4])).collect::<Vec<_>>(),
+            "pooled": pooled.iter().map(|(l, v, t)| json!([l, (v * 1e4).round() / 1e4, (t * 1e4).round() / 1e4])).collect::<Vec<_>>(),
             "worst_direction_mean_sigmas": (worst_mean * 100.0).round() / 100.0,
             "worst_direction_second_moment_dev": (worst_ratio * 1e4).round() / 1e4, "per_direction_tolerance": (tol * 1e4).round() / 1e4,
             "gs_mean_dispersion": (mean_disp * 1e3).round() / 1e3, "max_norm": a.max_norm}));
@@ -413,8 +428,8 @@ fn evaluate(rep: &mut Report) {
             alarm("mean squared norm", format!("mean ||s||^2/(2n sigma^2) = {:.5} over {} signatures", norm_ratio, a.m), rep);
             continue;
         }
-        if let Some((l, v)) = pooled.iter().find(|(_, v)| (v - 1.0).abs() > 0.02) {
-            alarm("pooled second moment", format!("{}: E<s,u>^2/sigma^2 = {:.4} over {} signatures", l, v, a.m), rep);
+        if let Some((l, v, t)) = pooled.iter().find(|(_, v, t)| (v - 1.0).abs() > *t) {
+            alarm("pooled second moment", format!("{}: E<s,u>^2/sigma^2 = {:.4} (tolerance +-{:.4}) over {} signatures", l, v, t, a.m), rep);
             continue;
         }
         if worst_ratio > tol {
@@ -462,7 +477,7 @@ pub fn check(tier: Tier, seed: u64) -> i32 {
     rep.rule = "a case is one signature in the history of one key: K keys x M signatures over distinct messages under healthy simulated entropy (E1), signed by 1-4 baton-scheduled threads sharing the key; for each signature (s1, s2) is recovered with the harness's own arithmetic and projected on the 2n normalised secret-basis rows and the 2n Gram-Schmidt (ffLDL leaf) directions; every signature is non-trivial; distinct = distinct signature bytes (plus one per key whose statistics were evaluated)".into();
     rep.assumptions = vec![
         "sigma from the specification (165.7366171829776 / 168.38857144654395)".into(),
-        "alarms: mean ||s||^2/(2n sigma^2) outside 1 +- 0.01; pooled second moment of a direction class outside 1 +- 0.02; a single direction outside 1 +- 7*sqrt(2/M); a direction mean beyond 6 standard errors or over-dispersed direction means; any ||s||^2 above floor(beta^2); fixed default seed".into(),
+        "alarms: mean ||s||^2/(2n sigma^2) outside 1 +- 0.01; pooled second moment of a direction class outside 1 +- 0.02 (widened to 7 standard deviations of that statistic, computed from the spectrum of the class's Gram operator, where that is larger); a single direction outside 1 +- 7*sqrt(2/M); a direction mean beyond 6 standard errors or over-dispersed direction means; any ||s||^2 above floor(beta^2); fixed default seed".into(),
         "detects distributional damage above these effect sizes only".into(),
         "no buggify and no entropy faults here: they would legitimately change the law".into(),
     ];
